@@ -149,25 +149,36 @@ struct Scripted {
     _life: Life,
 }
 
+/// the next message (ids in creation order): size index into the byte table, tag = element that consumes it / 10 = echo
+fn new_message(size: u64, eat: u64) -> Message {
+    let id = NEXT_MSG.with(|n| {
+        let mut n = n.borrow_mut();
+        let v = *n;
+        *n += 1;
+        v
+    });
+    let bytes = BYTES.with(|b| b.borrow()[size as usize]) - 64;
+    if bytes == 0 && id % 2 == 0 {
+        return Message::default().id(id).kind(eat as u16).with_content(Token::new());
+    }
+    Message::default().id(id).kind(eat as u16).with_content(Payload { bytes, _life: Life::new(2) })
+}
+
+/// an element that lets a message pass leaves its mark in the header; the handler reports how many marks it saw
+fn mark(mut msg: Message, i: usize) -> Message {
+    if i < 6 {
+        msg.header_mut().src[i] = (i + 1) as u8;
+    }
+    msg
+}
+
 impl Scripted {
     fn run_script(&mut self) {
         let cmds = self.scripts.get(self.k).cloned().unwrap_or(json!([]));
         self.k += 1;
         for c in cmds.as_array().unwrap() {
             let d = tick() * c["d"].as_u64().unwrap_or(0) as u32;
-            let mk = |size: u64, eat: u64| {
-                let id = NEXT_MSG.with(|n| {
-                    let mut n = n.borrow_mut();
-                    let v = *n;
-                    *n += 1;
-                    v
-                });
-                let bytes = BYTES.with(|b| b.borrow()[size as usize]) - 64;
-                if bytes == 0 && id % 2 == 0 {
-                    return Message::default().id(id).kind(eat as u16).with_content(Token::new());
-                }
-                Message::default().id(id).kind(eat as u16).with_content(Payload { bytes, _life: Life::new(2) })
-            };
+            let mk = new_message;
             match c["c"].as_str().unwrap() {
                 // every module but a uses the other spellings of the same calls: absolute times (send_at / schedule_at /
                 // shutdow_and_restart_at) and a gate given as (name, index) resp. as GateRef
@@ -262,7 +273,8 @@ impl Module for Scripted {
         self.run_script();
     }
     fn handle_message(&mut self, msg: Message) {
-        log(json!({"o": "msg", "m": self.name, "id": msg.header().id, "t": now_ticks(), "inc": self.inc}));
+        let mods = msg.header().src.iter().enumerate().filter(|(i, b)| **b == (*i + 1) as u8).count();
+        log(json!({"o": "msg", "m": self.name, "id": msg.header().id, "t": now_ticks(), "inc": self.inc, "mods": mods}));
         drop(msg);
         log_channel_state(&self.name);
         self.run_script();
@@ -304,7 +316,7 @@ impl ProcessingElement for Pe {
         if msg.header().kind as usize == self.i + 1 {
             None
         } else {
-            Some(msg)
+            Some(mark(msg, self.i))
         }
     }
 }
@@ -312,20 +324,31 @@ impl ProcessingElement for Pe {
 /// element 0 of every module comes from the global stack; it learns its module from the context
 struct Pe0 {
     _life: Life,
+    /// the message of the current event was tagged "echo" (kind 10): one more self-message is due at event_end
+    echo: bool,
 }
 impl ProcessingElement for Pe0 {
     fn event_start(&mut self) {
+        self.echo = false;
         log(json!({"o": "pe", "m": current().path().as_str(), "i": 0, "e": "start", "id": -1}));
     }
     fn event_end(&mut self) {
         log(json!({"o": "pe", "m": current().path().as_str(), "i": 0, "e": "end", "id": -1}));
+        if std::mem::take(&mut self.echo) {
+            schedule_in(new_message(1, 0), tick());
+        }
     }
     fn incoming(&mut self, msg: Message) -> Option<Message> {
         log(json!({"o": "pe", "m": current().path().as_str(), "i": 0, "e": "in", "id": msg.header().id}));
         if msg.header().kind == 1 {
             None
         } else {
-            Some(msg)
+            if msg.header().kind == 10 {
+                // elements may emit messages themselves: one now (before the handler), one when the event ends
+                self.echo = true;
+                schedule_in(new_message(1, 0), tick());
+            }
+            Some(mark(msg, 0))
         }
     }
 }
@@ -430,7 +453,7 @@ pub fn run_scenario_stop(cfg: &NetCfg, scripts: &Value, seed: u64, stop: &str) -
         let mut sim = Sim::new(());
         let any_stack = cfg.mods.iter().any(|m| cfg.stack[m].as_u64().unwrap_or(0) > 0);
         if any_stack {
-            sim.set_stack(|| Pe0 { _life: Life::new(1) });
+            sim.set_stack(|| Pe0 { _life: Life::new(1), echo: false });
         }
         // modules are created in tree order; a module with an empty stack discards the default element
         for m in &cfg.mods {
